@@ -519,6 +519,22 @@ def render_source(spec, rng=None, level=1):
         return '"' + d + '" '
 
     fam_as_loop = {k: (level >= 2 and coin(0.75)) for k in range(len(spec.get("families", [])))}
+    # parenthesised controls ?(c) have three body forms: ?(c) as listed, ?[c] lower case, ?{c} upper case. When the names of
+    # the family are all lower (upper) case, the tokens may be LISTED with any capitalisation and referred to by ?[c] (?{c})
+    fam_form = {}
+    for k_, fam_ in enumerate(spec.get("families", [])):
+        listed, body = list(fam_["tokens"]), fam_["ctrl"]
+        if fam_["ctrl"].startswith("?(") and coin(0.5):
+            name = fam_["ctrl"][2:-1]
+            if all(t == t.lower() for t in fam_["tokens"]):
+                listed = [("".join(ch.upper() if coin(0.5) else ch for ch in t)) for t in fam_["tokens"]]
+                body = f"?[{name}]"
+                feats.add("for-control-lower-form")
+            elif all(t == t.upper() for t in fam_["tokens"]):
+                listed = [("".join(ch.lower() if coin(0.5) else ch for ch in t)) for t in fam_["tokens"]]
+                body = "?{" + name + "}"
+                feats.add("for-control-upper-form")
+        fam_form[k_] = (listed, body)
 
     # ---- declaration blocks
     blocks = []  # (sortkey, text)
@@ -554,8 +570,9 @@ def render_source(spec, rng=None, level=1):
                     fam = spec["families"][k]
                     base = {"tvars": fam["var_base"], "tshocks": fam["shock_base"], "params": fam["param_base"]}[kind]
                     ctrl = fam["ctrl"]
+                    listed_, body_ = fam_form[k]
                     sfx = "`lg" if (use_list_for_log and kind == "tvars" and any(q.get("log") for q in spec["tvars"] if q.get("family") == k)) else ""
-                    text += f"\n    !for {ctrl} = {', '.join(fam['tokens'])} !do\n        {base}{ctrl}{sfx}\n    !end"
+                    text += f"\n    !for {ctrl} = {', '.join(listed_)} !do\n        {base}{body_}{sfx}\n    !end"
                     feats.add("for-loop-declaration")
             out.append(text)
         return out
@@ -588,9 +605,10 @@ def render_source(spec, rng=None, level=1):
                 done_fam.add(fam_k)
                 fam = spec["families"][fam_k]
                 ctrl = fam["ctrl"]
-                tmpl = json.loads(json.dumps(fam["template"]).replace(fam["placeholder"], ctrl))
-                body = render_eq(tmpl, allow_subs=False, force_square=("(" in ctrl))
-                lines.append(f"!for {ctrl} = {', '.join(fam['tokens'])} !do\n        {body};\n    !end")
+                listed_, body_ = fam_form[fam_k]
+                tmpl = json.loads(json.dumps(fam["template"]).replace(fam["placeholder"], body_))
+                body = render_eq(tmpl, allow_subs=False)   # (curly shifts directly after ?(c) were rejected by irispie: fixed)
+                lines.append(f"!for {ctrl} = {', '.join(listed_)} !do\n        {body};\n    !end")
                 feats.add("for-loop")
                 continue
             text = break_lines(render_eq(eq))
